@@ -473,7 +473,24 @@ def outmost(tree, v):
 
 # ---------------------------------------------------------------- XER layout
 
-TOKEN = re.compile(r"<[^>]*>|[^<]+")
+BOOL_TOKENS = ("<true/>", "<false/>")       # value notation of BOOLEAN (X.680 XMLBooleanValue), not an element with empty content
+
+
+def xer_ws_before_boolean(text):
+    """white-space text between the start tag of a BOOLEAN element and its <true/> / <false/> item
+    (finding C03-xer-boolean-leading-whitespace)"""
+    toks = xer_tokens(text)
+    for i, t in enumerate(toks):
+        if t in BOOL_TOKENS:
+            j = i - 1
+            while j >= 0 and (toks[j].startswith("<!--") or is_ws(toks[j])):
+                if is_ws(toks[j]):
+                    return True
+                j -= 1
+    return False
+
+
+TOKEN = re.compile(r"<!--.*?-->|<[^>]*>|[^<]+", re.S)
 
 
 def xer_tokens(text):
@@ -509,7 +526,7 @@ def xer_variant(text, rng, mode):
             out.append(t[:-1] + "/>")
             i += 2
             continue
-        if mode in ("empty", "mix") and t.endswith("/>") and not t.startswith("<!") and rng.chance(1, 2):
+        if mode in ("empty", "mix") and t.endswith("/>") and not t.startswith("<!") and t not in BOOL_TOKENS and rng.chance(1, 2):
             name = t[1:-2].strip()
             out.append("<" + name + "></" + name + ">")
             i += 1
